@@ -60,9 +60,9 @@ Definition o_parse_uri3 (c : case) : string -> option (string * string * string)
            | Some v => if String.eqb s v then k_uri c else None
            | None => None
            end.
-(** extractURL takes the re-encoded query *)
+(** extractURL takes the query as sent (RawQuery; before fix: f446e16 it was Query().Encode()) *)
 Definition o_parse_uri (c : case) : string -> option (string * string) :=
-  fun s => option_map (fun t => (fst (fst t), snd (fst t))) (o_parse_uri3 c s).
+  fun s => option_map (fun t => (fst (fst t), snd t)) (o_parse_uri3 c s).
 
 (** the well-formedness the theorems assume of the net package's answers ([net_ok], by
     [Request.table_net_ok]), checked on the answers of the case; and every string the model asks about
